@@ -285,7 +285,7 @@ func runC17(c *Ctx) {
 			r.Funcs[c.FuncKey(fn)] = true
 		})
 	}
-	r.Floor("R1", "stores to Config.Me", n, 6)
+	r.Floor("R1", "stores to Config.Me", n, 2)
 	if me := c.Func(c.Client, "(*Conn).Me"); me != nil {
 		ok := true
 		funcInstrs(me, func(in ssa.Instruction) {
@@ -736,6 +736,7 @@ func runC18(c *Ctx) {
 		r.Add("R2", "success-follows-dial", c.InstrPos(rt), c.FuncKey(cn), "Connect reports success (and registration is sent) only after dialling on that path", okD, "a dial step dominates the success return")
 	})
 	// stores to Config.Server in the connect routine
+	c.portCover = [2]bool{}
 	nSrv := 0
 	funcInstrs(cn, func(in ssa.Instruction) {
 		s, ok := in.(*ssa.Store)
@@ -752,66 +753,36 @@ func runC18(c *Ctx) {
 			return
 		}
 		nSrv++
-		ok2, why := false, "stored value is not net.JoinHostPort(Config.Server, <port>)"
-		if call, isC := s.Val.(*ssa.Call); isC && calleeName(&call.Call) == "net.JoinHostPort" && c.cfgFieldLoad(call.Call.Args[0], "Server") {
-			noPort := false
-			sslOf := func(cds []Cond) (ssl, known bool) {
-				for _, cd := range cds {
-					cd = unwrapNot(cd)
-					if c.cfgFieldLoad(cd.V, "SSL") {
-						return cd.True, true
-					}
-				}
-				return false, false
-			}
-			for _, cd := range CondsAt(s.Block()) {
-				cd = unwrapNot(cd)
-				if hc, isH := cd.V.(*ssa.Call); isH && hc.Call.StaticCallee() != nil && hc.Call.StaticCallee().Name() == "hasPort" && c.cfgFieldLoad(hc.Call.Args[0], "Server") && !cd.True {
-					noPort = true
-				}
-			}
-			portOK := func(k string, ssl, known bool) bool {
-				want := "6667"
-				if ssl {
-					want = "6697"
-				}
-				return known && k == want
-			}
-			okPort, desc := false, ""
-			switch pv := call.Call.Args[1].(type) {
-			case *ssa.Const:
-				k, _ := constString(pv)
-				ssl, known := sslOf(CondsAt(s.Block()))
-				okPort, desc = portOK(k, ssl, known), fmt.Sprintf("port %q under SSL=%v (known=%v)", k, ssl, known)
-			case *ssa.Phi:
-				okPort = len(pv.Edges) >= 2
-				sawSSL, sawPlain := false, false
-				for i, e := range pv.Edges {
-					k, isK := constString(e)
-					pred := pv.Block().Preds[i]
-					cds := CondsAt(pred)
-					if cd, okc := edgeCond(pred, pv.Block()); okc {
-						cds = append([]Cond{cd}, cds...)
-					}
-					ssl, known := sslOf(cds)
-					if !isK || !portOK(k, ssl, known) {
-						okPort = false
-					}
-					if ssl {
-						sawSSL = true
-					} else {
-						sawPlain = true
-					}
-					desc += fmt.Sprintf("%q when SSL=%v; ", k, ssl)
-				}
-				okPort = okPort && sawSSL && sawPlain
-			}
-			ok2 = okPort && noPort
-			why = fmt.Sprintf("%s on the no-port edge=%v", desc, noPort)
-		}
+		ok2, why, _ := c.serverStoreOK(s)
 		r.Add("R2", fmt.Sprintf("default-port#%d", nSrv), c.InstrPos(s), c.FuncKey(cn), "default port 6697 with SSL / 6667 without, only when none was given", ok2, why)
 	})
 	r.Floor("R2", "stores to Config.Server in the connect routine", nSrv, 1)
+	// elsewhere the configured address is only ever replaced by a caller-supplied one: a port joined on outside the
+	// connect routine would freeze the default chosen with the SSL setting of that moment, not of connect time
+	for _, fn := range c.clientFuncs() {
+		if fn == cn {
+			continue
+		}
+		funcInstrs(fn, func(in ssa.Instruction) {
+			st, ok := in.(*ssa.Store)
+			if !ok {
+				return
+			}
+			if fv, _ := fieldOf(st.Addr); fv != a.CfgServer {
+				return
+			}
+			okV, why := true, "caller-supplied address"
+			for _, o := range c.Origins(st.Val) {
+				switch o.(type) {
+				case *ssa.Parameter, *ssa.Const:
+				default:
+					okV, why = false, "stores "+o.String()+": the address is rewritten outside the connect routine"
+				}
+			}
+			r.Add("R2", "server-store:"+c.FuncKey(fn), c.InstrPos(st), c.FuncKey(fn), "outside the connect routine Config.Server only receives a caller-supplied address", okV, why)
+		})
+	}
+	r.Add("R2", "default-port-cover", c.Pos(cn.Pos()), c.FuncKey(cn), "both defaults exist: 6697 under SSL and 6667 without", c.portCover[0] && c.portCover[1], fmt.Sprintf("SSL default seen=%v, plain default seen=%v", c.portCover[0], c.portCover[1]))
 
 	// ---- R3
 	hp := a.IntTable["PING"]
@@ -946,6 +917,23 @@ func (c *Ctx) afterPortNormalisation(fn *ssa.Function, at ssa.Instruction) (bool
 		}
 	})
 	if iff == nil {
+		// the port test may live in a helper that returns the address: then a store of a value that is the
+		// configured address when it has a port, and the address with the default port otherwise, must dominate the dial
+		okN := false
+		funcInstrs(cn, func(in ssa.Instruction) {
+			if st, ok := in.(*ssa.Store); ok {
+				if fv, base := fieldOf(st.Addr); fv == c.A.CfgServer {
+					if f2, _ := loadedField(base); f2 == c.A.Cfg && instrDominates(in, at) {
+						if good, _, keeps := c.serverStoreOK(st); good && keeps {
+							okN = true
+						}
+					}
+				}
+			}
+		})
+		if okN {
+			return true, "after a store of the port-normalised address"
+		}
 		return false, "no hasPort(Config.Server) test in the connect routine"
 	}
 	if !instrDominates(iff, at) {
@@ -1262,34 +1250,57 @@ func runC19(c *Ctx) {
 	// ---- R3
 	nAuth := 0
 	saslVar := "Sasl"
+	ackGuard := func(cs ssa.CallInstruction) (bool, bool) {
+		isSasl, hasCfg := false, false
+		for _, cd := range CondsAt(cs.Block()) {
+			cd = unwrapNot(cd)
+			if bo, ok := cd.V.(*ssa.BinOp); ok && (bo.Op == token.EQL || bo.Op == token.NEQ) && (bo.Op == token.EQL) == cd.True {
+				if s, ok := constString(bo.Y); ok && s == "sasl" {
+					isSasl = true
+				}
+				if s, ok := constString(bo.X); ok && s == "sasl" {
+					isSasl = true
+				}
+			}
+			if bo, ok := cd.V.(*ssa.BinOp); ok && (bo.Op == token.NEQ) == cd.True {
+				if (c.cfgFieldLoad(bo.X, saslVar) && isNilConst(bo.Y)) || (c.cfgFieldLoad(bo.Y, saslVar) && isNilConst(bo.X)) {
+					hasCfg = true
+				}
+			}
+		}
+		return isSasl, hasCfg
+	}
+	// siteOK: the call is in the AUTHENTICATE handler, in the ACK handler under the sasl guard, or in an
+	// unexported helper all of whose callers satisfy the same
+	var siteOK func(cs ssa.CallInstruction, depth int) (bool, string)
+	siteOK = func(cs ssa.CallInstruction, depth int) (bool, string) {
+		fn := cs.Parent()
+		switch {
+		case fn == a.IntTable["AUTHENTICATE"]:
+			return true, "AUTHENTICATE handler"
+		case fn == ackFn:
+			isSasl, hasCfg := ackGuard(cs)
+			return isSasl && hasCfg, fmt.Sprintf("ACK handler: cap == sasl: %v, Sasl != nil: %v", isSasl, hasCfg)
+		}
+		if depth >= 3 || fn.Object() == nil || fn.Object().Exported() || addrTaken(fn) {
+			return false, "called from " + c.FuncKey(fn)
+		}
+		sites := c.staticCallers(fn)
+		if len(sites) == 0 {
+			return false, "called from " + c.FuncKey(fn) + ", which has no caller"
+		}
+		for _, s2 := range sites {
+			if ok, why := siteOK(s2, depth+1); !ok {
+				return false, "via " + c.FuncKey(fn) + ": " + why
+			}
+		}
+		return true, "helper reached only from the ACK handler (under the sasl guard) / the AUTHENTICATE handler"
+	}
 	for _, cs := range c.Callers(authFn) {
 		fn := cs.Parent()
 		nAuth++
-		switch {
-		case fn == a.IntTable["AUTHENTICATE"]:
-			r.Add("R3", "auth-site:"+c.FuncKey(fn)+fmt.Sprintf("#%d", nAuth), c.InstrPos(cs), c.FuncKey(fn), "SASL data is sent in answer to AUTHENTICATE", true, "AUTHENTICATE handler")
-		case fn == ackFn:
-			isSasl, hasCfg := false, false
-			for _, cd := range CondsAt(cs.Block()) {
-				cd = unwrapNot(cd)
-				if bo, ok := cd.V.(*ssa.BinOp); ok && (bo.Op == token.EQL || bo.Op == token.NEQ) && (bo.Op == token.EQL) == cd.True {
-					if s, ok := constString(bo.Y); ok && s == "sasl" {
-						isSasl = true
-					}
-					if s, ok := constString(bo.X); ok && s == "sasl" {
-						isSasl = true
-					}
-				}
-				if bo, ok := cd.V.(*ssa.BinOp); ok && (bo.Op == token.NEQ) == cd.True {
-					if (c.cfgFieldLoad(bo.X, saslVar) && isNilConst(bo.Y)) || (c.cfgFieldLoad(bo.Y, saslVar) && isNilConst(bo.X)) {
-						hasCfg = true
-					}
-				}
-			}
-			r.Add("R3", "auth-site:"+c.FuncKey(fn)+fmt.Sprintf("#%d", nAuth), c.InstrPos(cs), c.FuncKey(fn), "SASL is started only when sasl was acknowledged and SASL is configured", isSasl && hasCfg, fmt.Sprintf("cap == sasl: %v, Sasl != nil: %v", isSasl, hasCfg))
-		default:
-			r.Add("R3", "auth-site:"+c.FuncKey(fn)+fmt.Sprintf("#%d", nAuth), c.InstrPos(cs), c.FuncKey(fn), "Authenticate is called only from the ACK and AUTHENTICATE handlers", false, "called from "+c.FuncKey(fn))
-		}
+		ok, why := siteOK(cs, 0)
+		r.Add("R3", "auth-site:"+c.FuncKey(fn)+fmt.Sprintf("#%d", nAuth), c.InstrPos(cs), c.FuncKey(fn), "Authenticate is called only in answer to AUTHENTICATE, or from the ACK handler when sasl was acknowledged and SASL is configured", ok, why)
 	}
 	r.Floor("R3", "Authenticate call sites", nAuth, 3)
 	curVar := c.FieldVar(c.Client, "Conn", "currCaps")
@@ -1367,28 +1378,53 @@ func (c *Ctx) wantedSetRule(ctor *ssa.Function) {
 // Authenticate / Cap(END) were called and the value of boolean flag phis
 // whose operands are constants; at every return exactly one must hold.
 func (c *Ctx) ackProtocol(fn, capFn, authFn *ssa.Function) (bool, string) {
+	outs, n := c.ackExplore(fn, capFn, authFn, 0, map[*ssa.Function]bool{})
+	for _, o := range outs {
+		if o.auth == o.end {
+			return false, fmt.Sprintf("a path reaches the return at %s with Authenticate=%v and CAP END=%v", o.at, o.auth, o.end)
+		}
+	}
+	return true, fmt.Sprintf("%d (position, auth, end, flags) states explored; every return has exactly one of the two", n)
+}
+
+type ackOutcome struct {
+	auth, end bool
+	ret       int // boolean result: 0 unknown, 1 false, 2 true
+	at        string
+}
+
+// ackExplore walks every path of fn, tracking whether Authenticate and
+// Cap(END) have been called and the values of boolean flags (phis, results of
+// helpers explored the same way), and returns the outcomes at its returns.
+func (c *Ctx) ackExplore(fn, capFn, authFn *ssa.Function, depth int, open map[*ssa.Function]bool) ([]ackOutcome, int) {
 	type state struct {
 		b         *ssa.BasicBlock
+		idx       int
 		auth, end bool
 		flags     string
 	}
-	// flag phis: bool-typed phis
-	var flagPhis []*ssa.Phi
+	var tracked []ssa.Value
 	funcInstrs(fn, func(in ssa.Instruction) {
-		if ph, ok := in.(*ssa.Phi); ok {
-			if b, ok := ph.Type().Underlying().(*types.Basic); ok && b.Kind() == types.Bool {
-				flagPhis = append(flagPhis, ph)
-			}
+		v, ok := in.(ssa.Value)
+		if !ok {
+			return
+		}
+		if b, ok := v.Type().Underlying().(*types.Basic); !ok || b.Kind() != types.Bool {
+			return
+		}
+		switch in.(type) {
+		case *ssa.Phi, *ssa.Call:
+			tracked = append(tracked, v)
 		}
 	})
-	enc := func(m map[*ssa.Phi]int) string {
+	enc := func(m map[ssa.Value]int) string {
 		s := ""
-		for _, p := range flagPhis {
+		for _, p := range tracked {
 			s += fmt.Sprint(m[p])
 		}
 		return s
 	}
-	valOf := func(v ssa.Value, m map[*ssa.Phi]int) int { // 0 unknown, 1 false, 2 true
+	valOf := func(v ssa.Value, m map[ssa.Value]int) int {
 		if k, ok := v.(*ssa.Const); ok && k.Value != nil {
 			if k.Value.String() == "true" {
 				return 2
@@ -1397,58 +1433,86 @@ func (c *Ctx) ackProtocol(fn, capFn, authFn *ssa.Function) (bool, string) {
 				return 1
 			}
 		}
-		if p, ok := v.(*ssa.Phi); ok {
-			return m[p]
-		}
-		return 0
+		return m[v]
+	}
+	reaches := func(cal *ssa.Function) bool {
+		rc := c.Closure([]*ssa.Function{cal}, func(from *ssa.Function, e Edge) bool {
+			return e.Kind == EdgeCall && !e.Site.Common().IsInvoke()
+		})
+		_, a1 := rc.Funcs[authFn]
+		_, a2 := rc.Funcs[capFn]
+		return a1 || a2
 	}
 	seen := map[state]bool{}
-	bad := ""
-	var visit func(b *ssa.BasicBlock, from *ssa.BasicBlock, auth, end bool, flags map[*ssa.Phi]int)
-	visit = func(b *ssa.BasicBlock, from *ssa.BasicBlock, auth, end bool, flags map[*ssa.Phi]int) {
-		// phis
-		nf := map[*ssa.Phi]int{}
+	var outs []ackOutcome
+	seenOut := map[ackOutcome]bool{}
+	var visit func(b *ssa.BasicBlock, idx int, auth, end bool, flags map[ssa.Value]int)
+	enter := func(b, from *ssa.BasicBlock, auth, end bool, flags map[ssa.Value]int) {
+		nf := map[ssa.Value]int{}
 		for k, v := range flags {
 			nf[k] = v
 		}
-		if from != nil {
-			idx := -1
-			for i, p := range b.Preds {
-				if p == from {
-					idx = i
-				}
-			}
-			for _, in := range b.Instrs {
-				ph, ok := in.(*ssa.Phi)
-				if !ok {
-					break
-				}
-				if _, isFlag := nf[ph]; isFlag || containsPhi(flagPhis, ph) {
-					if idx >= 0 {
-						nf[ph] = valOf(ph.Edges[idx], flags)
-					}
-				}
+		pi := -1
+		for i, p := range b.Preds {
+			if p == from {
+				pi = i
 			}
 		}
-		st := state{b, auth, end, enc(nf)}
-		if seen[st] || bad != "" {
+		for _, in := range b.Instrs {
+			ph, ok := in.(*ssa.Phi)
+			if !ok {
+				break
+			}
+			if pi >= 0 {
+				nf[ph] = valOf(ph.Edges[pi], flags)
+			}
+		}
+		visit(b, 0, auth, end, nf)
+	}
+	visit = func(b *ssa.BasicBlock, idx int, auth, end bool, nf map[ssa.Value]int) {
+		st := state{b, idx, auth, end, enc(nf)}
+		if seen[st] || len(seen) > 20000 {
 			return
 		}
 		seen[st] = true
-		for _, in := range b.Instrs {
+		for i := idx; i < len(b.Instrs); i++ {
+			in := b.Instrs[i]
 			if cc := callOf(in); cc != nil {
-				if cc.StaticCallee() == authFn {
-					auth = true
-				}
-				if cc.StaticCallee() == capFn {
-					if s, _ := constString(cc.Args[1]); s == "END" {
-						end = true
+				if _, isGo := in.(*ssa.Go); !isGo {
+					cal := cc.StaticCallee()
+					switch {
+					case cal == authFn && cal != nil:
+						auth = true
+					case cal == capFn && cal != nil:
+						if s, _ := constString(cc.Args[1]); s == "END" {
+							end = true
+						}
+					case cal != nil && !cc.IsInvoke() && cal.Package() == c.Client && c.InModuleFn(cal) && depth < 3 && !open[cal] && reaches(cal):
+						open[cal] = true
+						subs, _ := c.ackExplore(cal, capFn, authFn, depth+1, open)
+						delete(open, cal)
+						for _, sub := range subs {
+							nf2 := map[ssa.Value]int{}
+							for k, v := range nf {
+								nf2[k] = v
+							}
+							if v, ok := in.(ssa.Value); ok {
+								nf2[v] = sub.ret
+							}
+							visit(b, i+1, auth || sub.auth, end || sub.end, nf2)
+						}
+						return
 					}
 				}
 			}
-			if isReturn(in) {
-				if auth == end {
-					bad = fmt.Sprintf("a path reaches the return at %s with Authenticate=%v and CAP END=%v", c.InstrPos(in), auth, end)
+			if rt, ok := in.(*ssa.Return); ok {
+				o := ackOutcome{auth: auth, end: end, at: c.InstrPos(in)}
+				if len(rt.Results) == 1 {
+					o.ret = valOf(retVal(rt, 0), nf)
+				}
+				if !seenOut[o] {
+					seenOut[o] = true
+					outs = append(outs, o)
 				}
 				return
 			}
@@ -1461,23 +1525,22 @@ func (c *Ctx) ackProtocol(fn, capFn, authFn *ssa.Function) (bool, string) {
 					takeTrue, takeFalse = isTrue, !isTrue
 				}
 				if takeTrue {
-					visit(b.Succs[0], b, auth, end, nf)
+					enter(b.Succs[0], b, auth, end, nf)
 				}
 				if takeFalse {
-					visit(b.Succs[1], b, auth, end, nf)
+					enter(b.Succs[1], b, auth, end, nf)
 				}
 				return
 			}
 		}
 		for _, s := range b.Succs {
-			visit(s, b, auth, end, nf)
+			enter(s, b, auth, end, nf)
 		}
 	}
-	visit(fn.Blocks[0], nil, false, false, map[*ssa.Phi]int{})
-	if bad != "" {
-		return false, bad
+	if len(fn.Blocks) > 0 {
+		visit(fn.Blocks[0], 0, false, false, map[ssa.Value]int{})
 	}
-	return true, fmt.Sprintf("%d (block, auth, end, flags) states explored; every return has exactly one of the two", len(seen))
+	return outs, len(seen)
 }
 
 func containsPhi(l []*ssa.Phi, p *ssa.Phi) bool {
@@ -1582,6 +1645,37 @@ func (c *Ctx) capDispatchRule(rule string) {
 			return
 		}
 		callee := call.Call.StaticCallee()
+		var tableKeys map[string]*ssa.Function
+		var tableOK ssa.Value // the comma-ok result of the table lookup, an accepted guard
+		if callee == nil && !call.Call.IsInvoke() {
+			// table-driven: handler, ok := table[subcommand]; handler(conn, caps)
+			if ex, isE := call.Call.Value.(*ssa.Extract); isE && ex.Index == 0 {
+				if lk, isL := ex.Tuple.(*ssa.Lookup); isL && lk.CommaOk {
+					if _, isArg := c.lineArgIndex(lk.Index, line); isArg {
+						tableKeys = c.tableEntries(lk.X)
+						for _, ref := range *lk.Referrers() {
+							if e2, ok := ref.(*ssa.Extract); ok && e2.Index == 1 {
+								tableOK = e2
+							}
+						}
+					}
+				}
+			} else if lk, isL := call.Call.Value.(*ssa.Lookup); isL {
+				if _, isArg := c.lineArgIndex(lk.Index, line); isArg {
+					tableKeys = c.tableEntries(lk.X)
+				}
+			}
+			if len(tableKeys) == 0 {
+				return
+			}
+			ks := make([]string, 0, len(tableKeys))
+			for k := range tableKeys {
+				seenSub[k] = true
+				ks = append(ks, k)
+			}
+			sort.Strings(ks)
+			callee = tableKeys[ks[0]]
+		}
 		if callee == nil || callee.Package() != c.Client || callee.Signature.Recv() == nil {
 			return
 		}
@@ -1590,8 +1684,8 @@ func (c *Ctx) capDispatchRule(rule string) {
 		}
 		// a sub-handler takes the capability list
 		takesList := false
-		for _, arg := range call.Call.Args[1:] {
-			if _, isSl := arg.Type().Underlying().(*types.Slice); isSl {
+		for i, arg := range call.Call.Args {
+			if _, isSl := arg.Type().Underlying().(*types.Slice); isSl && i >= 1 {
 				takesList = true
 			}
 		}
@@ -1603,6 +1697,12 @@ func (c *Ctx) capDispatchRule(rule string) {
 		for _, cd := range CondsAt(call.Block()) {
 			cd = unwrapNot(cd)
 			good := false
+			if tableOK != nil && cd.V == tableOK {
+				good = true
+			}
+			if bo, isB := cd.V.(*ssa.BinOp); isB && tableKeys != nil && (isNilConst(bo.X) || isNilConst(bo.Y)) {
+				good = true // nil test of the looked-up handler
+			}
 			switch v := cd.V.(type) {
 			case *ssa.Call:
 				if f := v.Call.StaticCallee(); f != nil && f.Name() == "argslen" {
@@ -1640,10 +1740,165 @@ func (c *Ctx) capDispatchRule(rule string) {
 		if ok2 {
 			why = "guarded only by argument-count tests and subcommand comparisons"
 		}
-		r.Add(rule, fmt.Sprintf("cap-dispatch:%s", callee.Name()), c.InstrPos(call), c.FuncKey(h), "sub-handler "+callee.Name()+" is reached for every reply with its subcommand", ok2, why)
+		name := callee.Name()
+		if tableKeys != nil {
+			name = "table"
+		}
+		r.Add(rule, "cap-dispatch:"+name, c.InstrPos(call), c.FuncKey(h), "sub-handler "+name+" is reached for every reply with its subcommand", ok2, why)
 	})
-	r.Floor(rule, "sub-handler calls in the CAP handler", n, 3)
+	r.Floor(rule, "sub-handler calls in the CAP handler", n, 1)
 	for _, sub := range []string{"LS", "ACK", "NAK"} {
 		r.Add(rule, "cap-subcommand:"+sub, c.Pos(h.Pos()), c.FuncKey(h), "a sub-handler is selected by subcommand "+sub, seenSub[sub], "comparison of the subcommand parameter with "+sub+" guarding a sub-handler call")
 	}
+}
+
+// ---- the default-port decision, evaluated through helpers ----
+
+type portFacts struct {
+	sslKnown, ssl bool
+	hpKnown, hp   bool // hasPort(Config.Server)
+}
+
+type penv struct {
+	m      map[*ssa.Parameter]ssa.Value
+	parent *penv
+}
+
+func (e *penv) resolve(v ssa.Value) (ssa.Value, *penv) {
+	for e != nil {
+		pr, ok := v.(*ssa.Parameter)
+		if !ok {
+			return v, e
+		}
+		b, ok := e.m[pr]
+		if !ok {
+			return v, e
+		}
+		v, e = b, e.parent
+	}
+	return v, nil
+}
+
+type addrForm struct {
+	kind  string // server | const | join | other
+	val   string
+	facts portFacts
+	desc  string
+}
+
+func (c *Ctx) addFacts(f portFacts, cds []Cond, env *penv) portFacts {
+	for _, cd := range cds {
+		cd = unwrapNot(cd)
+		v, e2 := env.resolve(cd.V)
+		if c.cfgFieldLoad(v, "SSL") {
+			f.sslKnown, f.ssl = true, cd.True
+			continue
+		}
+		if hc, ok := v.(*ssa.Call); ok && hc.Call.StaticCallee() != nil && hc.Call.StaticCallee().Name() == "hasPort" && len(hc.Call.Args) == 1 {
+			arg, _ := e2.resolve(hc.Call.Args[0])
+			if c.cfgFieldLoad(arg, "Server") {
+				f.hpKnown, f.hp = true, cd.True
+			}
+		}
+	}
+	return f
+}
+
+func (c *Ctx) addrForms(v ssa.Value, env *penv, f portFacts, depth int) []addrForm {
+	if depth > 8 {
+		return []addrForm{{kind: "other", desc: "too deep"}}
+	}
+	v, env = env.resolve(v)
+	if c.cfgFieldLoad(v, "Server") {
+		return []addrForm{{kind: "server", facts: f}}
+	}
+	if k, ok := constString(v); ok {
+		return []addrForm{{kind: "const", val: k, facts: f}}
+	}
+	switch t := v.(type) {
+	case *ssa.Phi:
+		var out []addrForm
+		for i, e := range t.Edges {
+			pred := t.Block().Preds[i]
+			cds := CondsAt(pred)
+			if cd, ok := edgeCond(pred, t.Block()); ok {
+				cds = append(cds, cd)
+			}
+			out = append(out, c.addrForms(e, env, c.addFacts(f, cds, env), depth+1)...)
+		}
+		return out
+	case *ssa.Call:
+		if calleeName(&t.Call) == "net.JoinHostPort" && len(t.Call.Args) == 2 {
+			var out []addrForm
+			for _, x := range c.addrForms(t.Call.Args[0], env, f, depth+1) {
+				for _, p := range c.addrForms(t.Call.Args[1], env, x.facts, depth+1) {
+					if x.kind == "server" && p.kind == "const" {
+						out = append(out, addrForm{kind: "join", val: p.val, facts: p.facts})
+					} else {
+						out = append(out, addrForm{kind: "other", desc: "JoinHostPort of " + x.kind + " and " + p.kind})
+					}
+				}
+			}
+			return out
+		}
+		callee := t.Call.StaticCallee()
+		if callee != nil && c.InModuleFn(callee) && !t.Call.IsInvoke() {
+			ne := &penv{m: map[*ssa.Parameter]ssa.Value{}, parent: env}
+			for i, pr := range callee.Params {
+				if i < len(t.Call.Args) {
+					ne.m[pr] = t.Call.Args[i]
+				}
+			}
+			var out []addrForm
+			funcInstrs(callee, func(in ssa.Instruction) {
+				if rt, ok := in.(*ssa.Return); ok && len(rt.Results) >= 1 {
+					out = append(out, c.addrForms(retVal(rt, 0), ne, c.addFacts(f, CondsAt(rt.Block()), ne), depth+1)...)
+				}
+			})
+			return out
+		}
+	}
+	return []addrForm{{kind: "other", desc: v.String()}}
+}
+
+// serverStoreOK: the value stored to Config.Server is the configured address
+// with port 6697 (SSL) / 6667 (plain) joined on exactly when it has none.
+// keeps reports that the value is the unchanged address when it has a port.
+func (c *Ctx) serverStoreOK(s *ssa.Store) (ok bool, why string, keeps bool) {
+	forms := c.addrForms(s.Val, nil, c.addFacts(portFacts{}, CondsAt(s.Block()), nil), 0)
+	ok = len(forms) > 0
+	sawSSL, sawPlain := false, false
+	for _, f := range forms {
+		switch f.kind {
+		case "join":
+			want := "6667"
+			if f.facts.ssl {
+				want = "6697"
+			}
+			good := f.facts.sslKnown && f.facts.hpKnown && !f.facts.hp && f.val == want
+			why += fmt.Sprintf("%q when SSL=%v(known=%v) noPort=%v; ", f.val, f.facts.ssl, f.facts.sslKnown, f.facts.hpKnown && !f.facts.hp)
+			if !good {
+				ok = false
+			}
+			if f.facts.ssl {
+				sawSSL = true
+			} else {
+				sawPlain = true
+			}
+		case "server":
+			if f.facts.hpKnown && f.facts.hp {
+				keeps = true
+				why += "unchanged when it has a port; "
+			} else {
+				ok = false
+				why += "stored unchanged although it may lack a port; "
+			}
+		default:
+			ok = false
+			why += "unrecognised value " + f.kind + " " + f.desc + "; "
+		}
+	}
+	c.portCover[0] = c.portCover[0] || sawSSL
+	c.portCover[1] = c.portCover[1] || sawPlain
+	return
 }
